@@ -7,7 +7,7 @@ def runs(path):
     out = {}
     if os.path.exists(path):
         for l in open(path):
-            m = re.match(r"(C\d+)-change(\d) suite=\[(.*?)\] violations=(\d+) :: (.*)", l)
+            m = re.match(r"(C\d+)-(?:change)?(\d+) suite=\[(.*?)\] violations=(\d+) :: (.*)", l)
             if m:
                 out["%s-%s" % (m.group(1), m.group(2))] = (m.group(3), int(m.group(4)), m.group(5).strip())
     return out
